@@ -14,15 +14,18 @@ EXTENDS KVStoreAbs, Integers, TLC, Json, SequencesExt, FiniteSetsExt
 CONSTANTS TraceFile, Prop
 Trace == ndJsonDeserialize(TraceFile)
 
-VARIABLES i, err, meta, cstreak, compacted
-tvars == <<i, err, meta, cstreak, compacted, m, d>>
+VARIABLES i, err, meta, cstreak, compacted,
+          walk   \* a cursor walk interleaved with the other calls: the keys present when it began, the keys touched since
+tvars == <<i, err, meta, cstreak, compacted, walk, m, d>>
+NoWalk == [p0 |-> {}, touched |-> {}]
+Touch(ks) == walk' = [walk EXCEPT !.touched = @ \cup ks]
 
 Has(r, f) == f \in DOMAIN r
 Want(p) == Prop = "ALL" \/ Prop = p
 
 TInit == /\ i = 1 /\ err = "" /\ cstreak = 0 /\ compacted = FALSE
          /\ meta = [T |-> 0, idle |-> 1, ntab |-> 1, len |-> 0, maxe |-> 0, seq |-> 0, wcur |-> 0, wmax |-> 0]
-         /\ m = <<>> /\ d = <<>>
+         /\ m = <<>> /\ d = <<>> /\ walk = NoWalk
 
 Ev == Trace[i]
 \* the first disagreement of a sequence is recorded and printed; validation goes on with the next
@@ -35,11 +38,11 @@ Step == i' = i + 1
 Reset == /\ Ev.t = "reset"
          /\ AbsReset(ToSet(Ev.keys))
          /\ meta' = [T |-> Ev.T, idle |-> Ev.idle, ntab |-> 1, len |-> 0, maxe |-> Ev.maxe, seq |-> Ev.seq, wcur |-> 0, wmax |-> 0]
-         /\ cstreak' = 0 /\ compacted' = FALSE /\ Ok
+         /\ cstreak' = 0 /\ compacted' = FALSE /\ Ok /\ walk' = NoWalk
 
 \* size classes (C17): an entry is stored iff it fits an empty table
 Fitting(sz) == sz < meta.T
-Put == /\ Ev.t = "put"
+Put == /\ Ev.t = "put" /\ Touch({Ev.k})
        /\ IF Ev.err = "ok"
           THEN /\ AbsPut(Ev.k, [id |-> Ev.id, sz |-> Ev.sz, ttl |-> Ev.ttl, ts |-> Ev.ts])
                /\ IF Want("C11") /\ ~Fitting(Ev.sz) THEN Fail("put of an entry that cannot fit was acknowledged") ELSE Ok
@@ -51,11 +54,11 @@ Put == /\ Ev.t = "put"
        /\ cstreak' = 0 /\ compacted' = FALSE
        /\ meta' = IF Ev.err = "ok" THEN [meta EXCEPT !.wcur = @ + Ev.sz] ELSE meta
 
-Del == /\ Ev.t = "del" /\ AbsDelete(Ev.k)
+Del == /\ Ev.t = "del" /\ AbsDelete(Ev.k) /\ Touch({Ev.k})
        /\ IF Want("C11") /\ Ev.err # "ok" THEN Fail("delete failed") ELSE Ok
        /\ cstreak' = 0 /\ compacted' = FALSE /\ UNCHANGED meta
 
-UTtl == /\ Ev.t = "uttl" /\ AbsUpdateTTL(Ev.k, Ev.ttl, Ev.ts)
+UTtl == /\ Ev.t = "uttl" /\ AbsUpdateTTL(Ev.k, Ev.ttl, Ev.ts) /\ Touch({Ev.k})
         /\ IF Want("C11") /\ Ev.err # (IF IsPresent(Ev.k) THEN "ok" ELSE "nf")
            THEN Fail("UpdateTTL result " \o Ev.err) ELSE Ok
         /\ cstreak' = 0 /\ compacted' = FALSE /\ UNCHANGED meta
@@ -63,7 +66,7 @@ UTtl == /\ Ev.t = "uttl" /\ AbsUpdateTTL(Ev.k, Ev.ttl, Ev.ts)
 \* C11/C20: compaction completes within a bounded number of calls (tables + entries/1000 + 2), counted from the number
 \* of tables and entries the store had when the run of calls began (every compact event carries the store's statistics
 \* taken just before the call; the figures of the last read-back may be hundreds of operations old)
-Compact == /\ Ev.t = "compact" /\ AbsCompact
+Compact == /\ Ev.t = "compact" /\ AbsCompact /\ UNCHANGED walk
            /\ cstreak' = IF Ev.done THEN 0 ELSE cstreak + 1
            /\ compacted' = Ev.done
            /\ LET nt == IF cstreak = 0 THEN Ev.ntab ELSE meta.ntab
@@ -78,7 +81,7 @@ Compact == /\ Ev.t = "compact" /\ AbsCompact
 
 ArrKeys == {Ev.arr[j].k : j \in 1..Len(Ev.arr)}
 StoredKeys == {Ev.arr[j].k : j \in {jj \in 1..Len(Ev.arr) : Ev.arr[jj].ok}}
-Xfer == /\ Ev.t = "xfer"
+Xfer == /\ Ev.t = "xfer" /\ Touch(ArrKeys)
         /\ IF Ev.err = "eof"
            THEN /\ UNCHANGED <<m, d>>
                 /\ IF Want("C11") /\ PresentKeys # {} THEN Fail("nothing to export although keys are present") ELSE Ok
@@ -130,7 +133,19 @@ NoDeadTablesOK == (compacted /\ meta.idle = 0) => Ev.stats.numtables <= Ev.stats
 BoundIdleOK == (compacted /\ meta.idle # 0) =>
               60 * Ev.stats.allocated <= 100 * (LiveBytes + meta.wmax + 3 * meta.T + Ev.stats.numtables * meta.maxe)
 
-Obs == /\ Ev.t = "obs" /\ UNCHANGED <<m, d, cstreak, compacted>>
+\* C12, a cursor walk whose pages alternate with the other calls (compaction steps, writes, deletes, transfers): it terminates,
+\* yields every key that was present all the time at least once and nothing that was never there
+WBegin == /\ Ev.t = "wbegin" /\ walk' = [p0 |-> PresentKeys, touched |-> {}] /\ UNCHANGED <<m, d, cstreak, compacted, meta>> /\ Ok
+WEnd == /\ Ev.t = "wend" /\ UNCHANGED <<m, d, cstreak, compacted, meta, walk>>
+        /\ IF ~Want("C12") THEN Ok
+           ELSE IF ~Ev.fin THEN Fail("a cursor walk interleaved with other calls did not terminate")
+           ELSE IF ~((walk.p0 \ walk.touched) \subseteq SeqToSet(Ev.keys))
+                THEN Fail("a key that was present during the whole cursor walk was not yielded")
+           ELSE IF ~(SeqToSet(Ev.keys) \subseteq (walk.p0 \cup walk.touched))
+                THEN Fail("a cursor walk yielded a key that was not stored at any time during the walk")
+           ELSE Ok
+
+Obs == /\ Ev.t = "obs" /\ UNCHANGED <<m, d, cstreak, compacted, walk>>
        /\ meta' = [meta EXCEPT !.ntab = Ev.stats.numtables, !.len = Ev.stats.length]
        /\ IF Want("C11") /\ ~GetOK THEN Fail("lookup disagrees with the map")
           ELSE IF Want("C11") /\ ~DstOK THEN Fail("receiver of a transfer disagrees")
@@ -144,7 +159,7 @@ Obs == /\ Ev.t = "obs" /\ UNCHANGED <<m, d, cstreak, compacted>>
           ELSE Ok
 
 TNext == /\ i <= Len(Trace) /\ Step
-         /\ \/ Reset \/ Put \/ Del \/ UTtl \/ Compact \/ Xfer \/ Obs
+         /\ \/ Reset \/ Put \/ Del \/ UTtl \/ Compact \/ Xfer \/ Obs \/ WBegin \/ WEnd
 TSpec == TInit /\ [][TNext]_tvars
 
 NoError == err = ""
